@@ -53,6 +53,14 @@ pub struct DetSpec {
     pub has_feat: bool,
     pub feat_var: u8,
     pub quality: Option<f32>,
+    /// fragmentary detection: the box covers only part of the object's width
+    /// (width factor, shift of the centre in object widths); (1, 0) = the whole object
+    #[serde(default = "whole")]
+    pub part: (f32, f32),
+}
+
+fn whole() -> (f32, f32) {
+    (1.0, 0.0)
 }
 
 #[derive(Clone, Debug, Serialize, Deserialize)]
@@ -101,6 +109,13 @@ impl History {
                 b.yc += s.jy * h;
                 let f = 1.0 + s.js;
                 b.height = (h * f).max(2.0);
+                if s.part.0 != 1.0 {
+                    // a fragment at one end of the (possibly rotated) object
+                    let a = b.angle.unwrap_or(0.0);
+                    b.xc += s.part.1 * w * a.cos();
+                    b.yc += s.part.1 * w * a.sin();
+                    b.aspect = (w * s.part.0).max(2.0) / b.height;
+                }
                 b
             } else {
                 // false positive somewhere in the image region
@@ -139,7 +154,7 @@ fn obj() -> impl Strategy<Value = Obj> {
         (100.0f32..400.0, 100.0f32..400.0),
         (-12.0f32..12.0, -12.0f32..12.0),
         (-0.4f32..0.4, -0.4f32..0.4),
-        (20.0f32..70.0, 20.0f32..70.0),
+        prop_oneof![5 => (20.0f32..70.0, 20.0f32..70.0), 1 => (90.0f32..160.0, 12.0f32..25.0)],
         -0.01f32..0.01,
         prop_oneof![3 => Just(None), 1 => (-3.2f32..3.2).prop_map(Some), 1 => (6.3f32..20.0).prop_map(Some)],
         -0.05f32..0.05,
@@ -192,6 +207,7 @@ struct RawDet {
     quality: Option<f32>,
     dup: bool,
     false_pos: bool,
+    part: (f32, f32),
 }
 
 fn raw_det() -> impl Strategy<Value = RawDet> {
@@ -205,8 +221,9 @@ fn raw_det() -> impl Strategy<Value = RawDet> {
         prop_oneof![1 => Just(None), 4 => (0.0f32..1.0).prop_map(Some)],
         proptest::bool::weighted(0.08),
         proptest::bool::weighted(0.08),
+        prop_oneof![12 => Just((1.0f32, 0.0f32)), 1 => (0.2f32..0.5, -0.4f32..0.4)],
     )
-        .prop_map(|(obj, present, (jx, jy, js), conf, has_feat, feat_var, quality, dup, false_pos)| RawDet { obj, present, jx, jy, js, conf, has_feat, feat_var, quality, dup, false_pos })
+        .prop_map(|(obj, present, (jx, jy, js), conf, has_feat, feat_var, quality, dup, false_pos, part)| RawDet { obj, present, jx, jy, js, conf, has_feat, feat_var, quality, dup, false_pos, part })
 }
 
 #[derive(Clone, Debug)]
@@ -316,7 +333,7 @@ pub fn history_opts(kind: Kind, lifecycle: bool, max_ops: usize, dups: bool) -> 
                             let obj = if d.false_pos { usize::MAX / 2 } else { d.obj % objs.len().max(1) };
                             uniq = uniq.wrapping_add(1);
                             let feat_var = if dups { d.feat_var } else { (uniq % 251) as u8 };
-                            let spec = DetSpec { obj, t, jx: d.jx, jy: d.jy, js: d.js, conf: d.conf, has_feat: d.has_feat, feat_var, quality: d.quality };
+                            let spec = DetSpec { obj, t, jx: d.jx, jy: d.jy, js: d.js, conf: d.conf, has_feat: d.has_feat, feat_var, quality: d.quality, part: d.part };
                             if d.dup && dups {
                                 specs.push(spec.clone());
                             }
